@@ -388,7 +388,7 @@ def walk_check(forest):
                     bad.append("previous_elements of %s" % nm(x))
                 if x.parent is not None:
                     sibs = x.parent.contents
-                    j = [i for i, s in enumerate(sibs) if s is x][0]
+                    j = j0 = [i for i, s in enumerate(sibs) if s is x][0]
                     if not same(list(x.next_siblings), sibs[j + 1:]):
                         bad.append("next_siblings of %s" % nm(x))
                     if not same(list(x.previous_siblings), list(reversed(sibs[:j]))):
@@ -399,12 +399,43 @@ def walk_check(forest):
                     anc.append(p); p = p.parent
                 if not same(list(x.parents), anc):
                     bad.append("parents of %s" % nm(x))
+                me = [] if getattr(x, "hidden", False) else [x]      # the self_and_* views leave out an element whose own tag is not shown
                 if isinstance(x, Tag):
                     sub = preorder(x)[1:]
                     if not same(list(x.descendants), sub):
                         bad.append("descendants of %s" % nm(x))
                     if not same(list(x.children), list(x.contents)):
                         bad.append("children of %s" % nm(x))
+                    # the remaining public views of the same tree: iteration, membership, position, self_and_* and
+                    # the deprecated generator spellings
+                    if not same(list(iter(x)), list(x.contents)):
+                        bad.append("iter() of %s" % nm(x))
+                    if not same(list(x.self_and_descendants), me + sub):
+                        bad.append("self_and_descendants of %s" % nm(x))
+                    for j, c in enumerate(x.contents):
+                        if x.index(c) != j or not any(c is d for d in x.contents):
+                            bad.append("index of child %s in %s" % (nm(c), nm(x)))
+                    with warnings.catch_warnings():
+                        warnings.simplefilter("ignore")
+                        if not same(list(x.childGenerator()), list(x.contents)) or not same(list(x.recursiveChildGenerator()), sub):
+                            bad.append("deprecated child generators of %s" % nm(x))
+                if not (x is root and not linked):
+                    if not same(list(x.self_and_next_elements), me + exp_next) or not same(list(x.self_and_previous_elements), me + exp_prev):
+                        bad.append("self_and_next/previous_elements of %s" % nm(x))
+                if not same(list(x.self_and_parents), me + anc):
+                    bad.append("self_and_parents of %s" % nm(x))
+                if x.parent is not None:
+                    if not same(list(x.self_and_next_siblings), me + sibs[j0 + 1:]) or not same(list(x.self_and_previous_siblings), me + list(reversed(sibs[:j0]))):
+                        bad.append("self_and_next/previous_siblings of %s" % nm(x))
+                with warnings.catch_warnings():
+                    warnings.simplefilter("ignore")
+                    if x.next is not x.next_element or x.previous is not x.previous_element:
+                        bad.append(".next/.previous of %s" % nm(x))
+                    if not same(list(x.nextGenerator()), list(x.next_elements)) or not same(list(x.previousGenerator()), list(x.previous_elements)) \
+                            or not same(list(x.nextSiblingGenerator()), list(x.next_siblings)) \
+                            or not same(list(x.previousSiblingGenerator()), list(x.previous_siblings)) \
+                            or not same(list(x.parentGenerator()), anc):
+                        bad.append("deprecated generators of %s" % nm(x))
             except Exception as e:
                 bad.append("iterator raised %s on %s" % (type(e).__name__, nm(x)))
     return bad
